@@ -1304,6 +1304,41 @@ impl<'a> Visitor<'a, '_, Error> for JSONValidator<'a> {
           }
         }
       }
+      (Type2::IntValue { value: l, .. }, Type2::UintValue { value: u, .. }) => {
+        // a negative lower and a non-negative upper bound, e.g. -3..3
+        let error_str = format!(
+          "expected integer to be in range {} <= value {} {}, got {}",
+          l,
+          if is_inclusive { "<=" } else { "<" },
+          u,
+          self.json
+        );
+
+        match &self.json {
+          Value::Number(n) => {
+            let i = n
+              .as_i64()
+              .map(i128::from)
+              .or_else(|| n.as_u64().map(i128::from));
+            match i {
+              Some(i) => {
+                let (l, u) = (*l as i128, *u as i128);
+                if i < l || i > u || (!is_inclusive && i == u) {
+                  self.add_error(error_str);
+                }
+              }
+              None => self.add_error(error_str),
+            }
+          }
+          _ => {
+            self.add_error(format!(
+              "invalid cddl range. value must be an integer type. got {}",
+              self.json
+            ));
+            return Ok(());
+          }
+        }
+      }
       (Type2::UintValue { value: l, .. }, Type2::UintValue { value: u, .. }) => {
         let error_str = if is_inclusive {
           format!(
